@@ -7,6 +7,12 @@ primitives are used for the hand-off only (a `Condition`), never a sleep.  A *sc
 of thread indices "who performs its next access"; `step(i)` lets thread i perform the access it is
 parked in front of and run up to its next access (or its end).
 
+Options of a run: `nested` — pre-emption ALSO at the calls the manager makes to its own methods
+(`basic_disconnect`, `basic_leave_room` per room, `is_connected` inside `can_disconnect`) while the
+run is gate-serial; `side` — concurrent operations that are not terminating actions of the sid
+(refused CONNECT of another transport, disconnect() of another client of the namespace, an EVENT
+with ack id of the same client): real threads, not tasks of the model, judged by the oracle.
+
 `Run` executes one schedule on a fresh real server and records, per step, the access performed
 (with its result) — from which the model schedule, the gate windows, and the observable outcome
 (handler calls with reasons, exceptions, residue in the manager) are derived.
